@@ -1,7 +1,7 @@
 """C02 -- inserted values are escaped and cannot change document structure (DESIGN.md 4, C02)."""
 H = 'checks.hC02'
 
-ESCAPED_SITES = ['text', 'attr_dq', 'attr_sq', 'attr_unquoted_interp', 'tal_attr_unquoted_static', 'tal_attr', 'tal_attr_sq_static', 'dict_attr', 'comment',
+ESCAPED_SITES = ['text', 'attr_dq', 'attr_sq', 'attr_unquoted_interp', 'tal_attr_unquoted_static', 'filler_text', 'filler_attr', 'tal_attr', 'tal_attr_sq_static', 'dict_attr', 'comment',
                  'content', 'replace', 'string_content', 'string_attr', 'i18n_name']
 MSG_SITES = ['translated_msg', 'translated_msg_interp', 'content_translated', 'replace_translated']
 OPTOUT_SITES = ['structure_kw', 'structure_expr', 'html_method', 'cdata']
@@ -45,7 +45,7 @@ def plan(tier, seed):
                    'chameleon.compiler:Compiler.visit_Attribute', 'chameleon.compiler:Compiler.visit_DictAttributes',
                    'chameleon.compiler:Compiler.visit_Interpolation', 'chameleon.compiler:Compiler.visit_Translate',
                    'chameleon.compiler:Compiler.visit_Name', 'chameleon.compiler:Interpolator.__call__'],
-        bounds=('%d insertion sites (element text, double/single-quoted attribute, attributes written without quotes, tal:attributes named and over a '
+        bounds=('%d insertion sites (element text, double/single-quoted attribute, attributes written without quotes, text and attribute inside a slot filler, tal:attributes named and over a '
                 'single-quoted static attribute, attribute dictionary, comment, tal:content, tal:replace, string: in '
                 'content and attribute, i18n:name block, translated message objects, the 5-site combination) and the '
                 'opt-outs (structure keyword/expression, __html__, CDATA); value kinds str / str subclass / object with '
